@@ -149,15 +149,13 @@ Qed.
 
 Lemma cmp_Z_N op a b : cmp_Z op (Z.of_N a) (Z.of_N b) = cmp_N op a b.
 Proof.
-  destruct op; simpl; rewrite ?N2Z.inj_compare; unfold Z.eqb, N.eqb, Z.ltb, N.ltb, Z.leb, N.leb;
-    try (rewrite N2Z.inj_compare; reflexivity).
-  - destruct (Z.of_N a ?= Z.of_N b)%Z eqn:E; rewrite N2Z.inj_compare in E; rewrite <- E;
-      destruct (a ?= b)%N eqn:F; try reflexivity;
-      try (apply N.compare_eq in F; subst; rewrite N.eqb_refl; reflexivity);
-      (destruct (N.eqb_spec a b) as [->|]; [rewrite N.compare_refl in F; discriminate | reflexivity]).
-  - destruct (a ?= b)%N eqn:F; try reflexivity;
-      try (apply N.compare_eq in F; subst; rewrite N.eqb_refl; reflexivity);
-      (destruct (N.eqb_spec a b) as [->|]; [rewrite N.compare_refl in F; discriminate | reflexivity]).
+  destruct op; simpl.
+  - destruct (Z.eqb_spec (Z.of_N a) (Z.of_N b)), (N.eqb_spec a b); try reflexivity; lia.
+  - destruct (Z.eqb_spec (Z.of_N a) (Z.of_N b)), (N.eqb_spec a b); try reflexivity; lia.
+  - destruct (Z.ltb_spec (Z.of_N a) (Z.of_N b)), (N.ltb_spec a b); try reflexivity; lia.
+  - destruct (Z.ltb_spec (Z.of_N b) (Z.of_N a)), (N.ltb_spec b a); try reflexivity; lia.
+  - destruct (Z.leb_spec (Z.of_N a) (Z.of_N b)), (N.leb_spec a b); try reflexivity; lia.
+  - destruct (Z.leb_spec (Z.of_N b) (Z.of_N a)), (N.leb_spec b a); try reflexivity; lia.
 Qed.
 
 (* fully defined operands of ANY widths (equal or not, zero, <= 64, > 64): the unsigned comparison *)
@@ -215,17 +213,30 @@ Proof.
   intro Hs. simpl. unfold eval_mux. cbn [inp nth]. rewrite Hs. reflexivity.
 Qed.
 
-(* what the merge of one bit position yields *)
-Lemma mux_merge_bit_spec ts :
-  mux_merge_bit ts = match ts with
-                     | [] => BX
-                     | t :: rest => if is_def t && forallb (fun u => tbit_eqb u t) rest then t else BX
-                     end.
+(* what the merge of one bit position yields: a defined value m iff there is at least one
+   data input and every data input has exactly m at that position *)
+Lemma merge_agree_iff t u :
+  is_def t = true -> (is_def u && Bool.eqb (bit_val t) (bit_val u) = true <-> u = t).
+Proof. destruct t, u; simpl; intro H; split; intro E; try reflexivity; try discriminate. Qed.
+
+Theorem mux_merge_bit_defined ts m :
+  m <> BX -> (mux_merge_bit ts = m <-> ts <> [] /\ Forall (fun t => t = m) ts).
 Proof.
-  destruct ts as [|t rest]; [reflexivity|]. simpl.
-  destruct t; simpl; try reflexivity;
-    (replace (forallb (fun u => is_def u && Bool.eqb _ (bit_val u)) rest) with (forallb (fun u => tbit_eqb u _) rest);
-     [reflexivity | apply forallb_ext; intros [| |]; reflexivity]).
+  intro Hm. destruct ts as [|t rest]; simpl.
+  - split; [intro H; symmetry in H; contradiction | intros [H _]; contradiction].
+  - destruct (is_def t) eqn:Dt; simpl.
+    + destruct (forallb (fun u => is_def u && Bool.eqb (bit_val t) (bit_val u)) rest) eqn:F.
+      * split.
+        -- intros ->. split; [discriminate|]. constructor; [reflexivity|].
+           apply Forall_forall. intros u Hu. rewrite forallb_forall in F. apply (merge_agree_iff m u Dt). apply F. exact Hu.
+        -- intros [_ H]. inversion H; subst. reflexivity.
+      * split; [intro H; symmetry in H; contradiction|].
+        intros [_ H]. inversion H as [|? ? Ht Hr]; subst. exfalso.
+        assert (forallb (fun u => is_def u && Bool.eqb (bit_val m) (bit_val u)) rest = true); [|congruence].
+        apply forallb_forall. intros u Hu. apply (merge_agree_iff m u Dt).
+        rewrite Forall_forall in Hr. apply Hr. exact Hu.
+    + split; [intro H; symmetry in H; contradiction|].
+      intros [_ H]. inversion H; subst. destruct m; try discriminate; contradiction.
 Qed.
 
 (* ------------------------------------------------------------------ *)
@@ -256,21 +267,19 @@ Qed.
 
 (* an undefined (or unconnected) condition that is reached makes the whole result undefined,
    even if all candidate values agree *)
-Theorem eval_prio_undef_cond w dflt cs c v rest :
+Theorem eval_prio_undef_cond n w dflt cs c v rest :
+  length cs < n ->
   c = None \/ (exists cb, c = Some cb /\ bv_get cb 0 = BX) ->
-  eval (KPrio (length cs + 1 + length rest / 2) w)
-       (Some dflt :: prio_inputs (map (fun v => (false, v)) cs) ++ c :: v :: rest) = [all_X w].
+  eval (KPrio n w) (Some dflt :: prio_inputs (map (fun v => (false, v)) cs) ++ c :: v :: rest) = [all_X w].
 Proof.
-  intro Hc. simpl. unfold eval_prio. cbn [inp nth tl]. f_equal.
+  intros Hn Hc. unfold eval, eval_prio. cbn [inp nth tl]. f_equal.
   set (pre := prio_inputs (map (fun v0 => (false, v0)) cs)).
   assert (L : length pre = 2 * length cs).
   { subst pre. induction cs as [|v0 cs IH]; simpl in *; [reflexivity | lia]. }
-  assert (F : firstn (2 * (length cs + 1 + length rest / 2)) (pre ++ c :: v :: rest)
-              = pre ++ c :: v :: firstn (2 * (length rest / 2)) rest).
-  { rewrite firstn_app, L.
-    replace (2 * (length cs + 1 + length rest / 2) - 2 * length cs) with (S (S (2 * (length rest / 2)))) by lia.
-    rewrite firstn_all2 by lia. reflexivity. }
-  rewrite F. clear F L. subst pre.
+  rewrite firstn_app, L.
+  rewrite (firstn_all2 pre) by lia.
+  destruct (2 * n - 2 * length cs) as [|[|m]] eqn:E; try lia.
+  cbn [firstn]. clear E L Hn. subst pre.
   induction cs as [|v0 cs IH]; cbn [map prio_inputs flat_map app fst snd prio_loop of_bool bv_get nth].
   - destruct Hc as [->|[cb [-> Hb]]]; [reflexivity | rewrite Hb; reflexivity].
   - apply IH.
